@@ -64,6 +64,67 @@ def run(check, prog):
     composites(check, prog, canon)
     setterless(check, prog)
     rigid_cluster_members(check, prog)
+    scatterer_no_memo(check, prog)
+
+
+def scatterer_no_memo(check, prog):
+    """M9: a scatterer is a value -- what it reports (centre, centres, bounds,
+    members) is computed from its present attributes, and nothing it computed
+    earlier is kept on the object.  `translated` / `rotated` / `from_parameters`
+    build their result from a *copy* of the object: a remembered centroid,
+    bounding box or member list would travel with the copy and describe the old
+    geometry.  Rule: in the scatterer package every store to an attribute of
+    `self` sits in a constructor; property getters and query methods store
+    nothing on `self` (directly, through setattr, or through __dict__)."""
+    pkg = 'holopy.scattering.scatterer.'
+    ctor_stores, bad, methods = 0, [], 0
+    for cq, c in sorted(prog.classes.items()):
+        if not cq.startswith(pkg):
+            continue
+        members = list(c.methods.items()) + [
+            (n + ' (property)', p['getter']) for n, p in c.properties.items()
+            if p.get('getter') is not None]
+        for name, fd in members:
+            if not fd.args.args:
+                continue
+            me = fd.args.args[0].arg
+            methods += 1
+            for n in ast.walk(fd):
+                tgt = None
+                if isinstance(n, ast.Attribute) and isinstance(n.ctx, (ast.Store, ast.Del)) \
+                        and isinstance(n.value, ast.Name) and n.value.id == me:
+                    tgt = 'self.' + n.attr
+                elif isinstance(n, ast.Call) and isinstance(n.func, ast.Name) and \
+                        n.func.id in ('setattr', 'delattr') and n.args and \
+                        isinstance(n.args[0], ast.Name) and n.args[0].id == me:
+                    tgt = '%s(self, %s)' % (n.func.id, ast.unparse(n.args[1])
+                                            if len(n.args) > 1 else '')
+                elif isinstance(n, ast.Subscript) and isinstance(n.ctx, ast.Store) and \
+                        isinstance(n.value, ast.Attribute) and n.value.attr == '__dict__' \
+                        and isinstance(n.value.value, ast.Name) and n.value.value.id == me:
+                    tgt = 'self.__dict__[...]'
+                if tgt is None:
+                    continue
+                if name == '__init__':
+                    ctor_stores += 1
+                else:
+                    bad.append((cq, name, tgt, '%s:%d' % (c.module.relpath, n.lineno)))
+    check.floor('attribute stores in scatterer constructors', ctor_stores, 40)
+    check.note('scatterer methods and property getters scanned', '%d' % methods)
+    for cq, name, tgt, where in bad:
+        short = cq.rpartition('.')[2]
+        check.bad('M9-scatterers-keep-no-derived-state', '%s.%s stores %s' % (
+            short, name, tgt),
+            '%s.%s keeps %s on the object: translated(), rotated() and '
+            'from_parameters() start from copy(self), so the remembered value goes '
+            'along and describes the geometry before the move (after reading '
+            'cluster.center, cluster.translated(v).center is still the old '
+            'centroid; a second rotation of a nested composite is no longer rigid)'
+            % (short, name, tgt), where)
+    if not bad:
+        check.ok('M9-scatterers-keep-no-derived-state', 'scatterer package',
+                 'no method or property getter outside the constructors stores an '
+                 'attribute on self (%d scanned)' % methods)
 
 
 def matmul(A, B):
